@@ -17,7 +17,7 @@ PROFILES = {
     "timeouts": dict(timeouts=[0, 1, 2, 3, 7, 8, 9, 10, 12, 15, 16, 17, 25], nkeys=2, nids=12, p_unlock=0.15, p_time=0.45, expr=[30, 60, 100], counts=[0, 0, 1]),
     "expiry": dict(expr=[1, 2, 3, 5, 8, 9, 10, 12, 16, 17, 25, 40], timeouts=[0, 0, 3, 20], nkeys=2, nids=8, p_unlock=0.15, p_time=0.45, p_update=0.15),
     "ack": dict(p_ack=0.5, nkeys=2, nids=6, timeouts=[0, 2, 5, 10], p_ackact=0.25),
-    "role": dict(p_role=0.06, nkeys=2),
+    "role": dict(p_role=0.08, nkeys=2, p_time=0.3, expr=[1, 2, 3, 5, 10, 20], eflags=[0, 0, 0x100, 0x100]),
     "aof": dict(aoftimes=[0, 1, 2, 5], p_time=0.35, eflags=[0, 0, 0x100, 0x200, 0x1000, 0x40], nkeys=2),
     "many": dict(nkeys=1, nids=400, counts=[65535, 300, 200], timeouts=[30, 60], expr=[50, 100], p_unlock=0.2, length=(300, 700), p_time=0.03),
 }
@@ -89,8 +89,14 @@ class Gen:
         return "req %d U %d %d %d %d %d %d %d %d %d %d %s" % (r.choice(conns), self.req, flag, r.choice(ids), r.choice(keys),
                                                               tflag, 0, 0, 0, r.choice([0, 0, 1, 65535]), rcount, data)
 
+    def from_aof(self, line):
+        f = line.split()
+        f[4] = str(int(f[4]) | 4)
+        return " ".join(f)
+
     def case(self, cid, drain=True):
         r = self.rng
+        follower = False
         nkeys = self.p.get("nkeys", r.choice([1, 1, 2, 3]))
         nids = self.p.get("nids", r.choice([2, 3, 4, 6]))
         keys = [r.choice([3, 7, 11, 19, 258, 70000]) + i for i in range(nkeys)]
@@ -117,16 +123,24 @@ class Gen:
                 elif r.random() < 0.5:
                     lines.append(sw[0])
             elif x < p_time + p_unlock:
-                lines.append(self.unlock_cmd(keys, ids, conns))
+                ln = self.unlock_cmd(keys, ids, conns)
+                if follower and r.random() < 0.5:
+                    ln = self.from_aof(ln); self.stats["from_aof"] += 1
+                lines.append(ln)
             elif x < p_time + p_unlock + self.p.get("p_ackact", 0.0):
                 lines.append("ack %d %d" % (r.randint(0, max(0, nacks + 2)), r.choice([0, 1, 1])))
                 nacks += 1
                 self.stats["ack"] += 1
             elif x < p_time + p_unlock + self.p.get("p_ackact", 0.0) + self.p.get("p_role", 0.0):
-                lines.append("role %d" % r.choice([0, 1, 1]))
+                b = r.choice([0, 0, 1])
+                follower = (b == 0)
+                lines.append("role %d" % b)
                 self.stats["role"] += 1
             else:
-                lines.append(self.lock_cmd(keys, ids, conns))
+                ln = self.lock_cmd(keys, ids, conns)
+                if follower and r.random() < 0.5:
+                    ln = self.from_aof(ln); self.stats["from_aof"] += 1
+                lines.append(ln)
         if drain:
             lines.append("adv 0")     # marker: the drain phase starts here (kept intact by the shrinker)
             lines.append("role 1")
@@ -222,7 +236,7 @@ def diff_case(a, b):
         if ra and ra[-1].startswith("ev panic") and rb and rb[-1].startswith("ev panic"):
             if ra[-1].split()[2].startswith("uaf:") or rb[-1].split()[2].startswith("uaf:"):
                 return None   # use-after-free of a lock record: both sides crash, the Go site depends on stale fields
-            if ra[-1].split()[2].split("/")[-1] != rb[-1].split()[2].split("/")[-1]:
+            if ra[-1].split()[2].split("/")[-1].split("#")[0] != rb[-1].split()[2].split("/")[-1].split("#")[0]:
                 return dict(index=i, action=aa, what="panic-site", model=ra, impl=rb)
             return None
         if ra != rb:
